@@ -107,7 +107,7 @@ CHECKS = {
         "delivered == sent (exactly once, in order), buffer capacity <= max after every call, malformed prefixes / "
         "undecodable payloads => Err then resynchronisation, bounded work per wake-up; every single/pair split of short "
         "sequences enumerated; blocking, non-blocking, paired and threaded-writer families. Held on what was explored.",
-        "Trusted: kernel socketpair semantics; Miri shard for the Buffer types is run by the thorough tier only.",
+        "Trusted: kernel socketpair semantics; the thorough tier adds the Miri shard for the Buffer types and repeats the workload in an AddressSanitizer build.",
     ),
     "C17": (
         "exploration",
@@ -200,17 +200,21 @@ CHECKS = {
         "prefaces, resets under socket back-pressure, vanishing clients, draining: the worker must not panic, must keep "
         "answering Status and serving a probe connection, must release the hostile connection (hook footprint back to "
         "baseline), must never over-commit at the backends, and must react with the RFC 9113 error class when a "
-        "conservative classifier says the class is unambiguous. Bounded-time misses are re-run alone twice.",
+        "conservative classifier says the class is unambiguous; frames behind a refused stream and answers crossing sozu's own "
+        "RST_STREAM must be tolerated (bystander streams complete across an HPACK reference), trailer blocks obey the same "
+        "budgets whatever their field names. Bounded-time misses are re-run alone twice. Thorough adds the Miri shard of the "
+        "parser and an AddressSanitizer build of the whole workload.",
         "Trusted: the independent reference decode; both answers accepted where RFC 9113 leaves the layer open.",
     ),
     "C02": (
         "fault_enumeration",
         "exactly-once + cause-to-status + bounded-progress monitor over an enumerated backend fault catalogue on a live worker",
         "DESIGN.md section 3 C02, Appendix A",
-        "1322 scenarios per quick run on real workers with 1-2 s timeouts: every routing outcome of the statement x 3 fronts "
+        "1355 scenarios per quick run on real workers with 1-2 s timeouts: every routing outcome of the statement x 3 fronts "
         "(H1/TCP, H1/TLS, H2/TLS) x {single, keep-alive position, 2..8 H2 streams}; backend close at EVERY offset of a short "
         "response for 4 framings (exhaustive sweeps), RST, stalls at 5 stages, garbage, idle-close races, slow clients, h2c "
-        "backend faults (RST_STREAM, GOAWAY, close, silence, no SETTINGS ack), faults during uploads. Per request id: exactly "
+        "backend faults (RST_STREAM, GOAWAY, close, silence, no SETTINGS ack), faults during uploads, silence inside the response "
+        "head, silence after an interim 1xx with back_timeout < front_timeout, sticky cookies naming a refusing backend. Per request id: exactly "
         "one answer, status matching the injected cause, no truncated body presented as complete, siblings intact, answer "
         "within the governing timeout + slack (a miss is re-run alone before counting).",
         "Trusted: scripted backends' own record of what they sent; causes the statement does not name are recorded under "
@@ -227,7 +231,10 @@ CHECKS = {
         "backend counters, per-(cluster,IP) maps, accept queue) must equal the pre-mix baseline and agree with QueryMetrics; "
         "gauge-underflow counter 0; at no iteration nb_connections > max_connections and the backends never hold more "
         "requests than max_connections; accept resumes; per-IP limits (incl. runtime changes) hold; idle/stuck sessions are "
-        "reclaimed within their timeouts (misses re-run alone).",
+        "reclaimed within their timeouts (misses re-run alone); sessions spanning clusters with own and inherited per-IP limits "
+        "across a runtime disable; backends closing parked keep-alive connections; a direct lab on the timer wheel (random "
+        "arm/cancel/poll schedules with revolutions of a few ms against a reference model: no pending timeout left unscheduled, "
+        "exactly-once delivery).",
         "Trusted: hook H3/H6 values as ground truth; leak signatures carry the outcome class; an unmatched decrement is "
         "invisible once no leak has raised the counter (saturating subtraction).",
     ),
@@ -241,7 +248,8 @@ CHECKS = {
         "independent v2 parser, incoming headers (10 shapes: IPv4/IPv6/UNIX/UNSPEC, LOCAL/PROXY, TLV tails) are split at "
         "EVERY byte position with and without joined payload (exhaustive sweep), malformed/oversized/truncated headers "
         "must close with nothing forwarded; sizes up to 8 MB (64 MB thorough) under segmented writers, slow readers and "
-        "shrunk socket buffers on both sides (sozu-side EAGAIN counted by the hooks).",
+        "shrunk socket buffers on both sides (sozu-side EAGAIN counted by the hooks). Thorough adds the Miri shard of the "
+        "PROXY protocol parser and an AddressSanitizer build of the whole workload.",
         "Trusted: the harness's own PROXY v2 builder/parser (written from the haproxy spec); UNIX-family and PROXY+UNSPEC "
         "headers are optional per the spec and exempt; reverse-direction truncation after the first FIN is a known "
         "finding (session ends at the first end-of-stream).",
@@ -257,7 +265,10 @@ CHECKS = {
         "to 1 MB, shrunk socket buffers. Every DATA frame sozu sends is checked against the windows in force, every frame "
         "against our max frame size, streams against our concurrency limit and id rules, HPACK updates against our table "
         "size; bodies are keystreams (corruption localised); once credit >= remaining body the transfer must finish "
-        "(stalls re-run alone before counting); uploads larger than sozu's own window must complete.",
+        "(stalls re-run alone before counting); uploads larger than sozu's own window must complete, including heavily PADDED "
+        "DATA in both directions whose padding alone exceeds sozu's connection window several times (a compliant sender "
+        "must never be starved of connection credit once everything it sent has been consumed: decided on PING barriers). "
+        "Thorough repeats the workload in an AddressSanitizer build.",
         "Trusted: the harness codec's ledger (self-tested against itself and sozu); sozu's reapers and flood guards are "
         "configured out of the way; known findings: MAX_CONCURRENT_STREAMS of a late SETTINGS, the cross-direction "
         "head-of-line deadlock, ACK overtaking framed DATA, the loop-budget close.",
@@ -273,7 +284,9 @@ CHECKS = {
         "DATA, empty DATA or trailers; sizes biased to buffer_size+-2, 16384+-9, 65535+-1, 2^n+-1 up to 8 MB (64 MB "
         "thorough); keep-alive sequences and backend connection reuse; random I/O programs on all four sockets. Receivers "
         "compare every byte with the sender's keystream (first bad offset localised), require clean termination whenever "
-        "the sender ended cleanly, and progress is decided on bytes (a stall is re-run alone before it counts).",
+        "the sender ended cleanly, and progress is decided on bytes (a stall is re-run alone before it counts); a stream "
+        "cancelled mid-download followed by further exchanges on the same connection and backend must not disturb them. "
+        "Thorough repeats the workload in an AddressSanitizer build.",
         "Trusted: the harness's H1 reader and H2 codec; sozu-side EAGAIN/partial writes are counted by the hooks as "
         "evidence of schedule diversity; early-response handling and a many-stream flow-control deadlock are known findings.",
     ),
